@@ -911,7 +911,27 @@ func (c *Ctx) retentionCancel(rule string) {
 	start := p.Method("pkg/storage", "RetentionScanner", "Start")
 	scan := p.Method("pkg/storage", "RetentionScanner", "DoScan")
 	join := p.Method("pkg/storage", "RetentionScanner", "Join")
-	fShut := p.Field("pkg/storage", "RetentionScanner", "retentionShutdown")
+	// the shutdown channel: the channel field of the scanner that Join waits on
+	var fShut *types.Var
+	if join != nil {
+		eng.EachInstr(join, func(in ssa.Instruction) {
+			if u, ok := in.(*ssa.UnOp); ok && u.Op == token.ARROW && fShut == nil {
+				if f := eng.LoadedField(u.X); f != nil {
+					fShut = f
+				}
+			}
+			if sel, ok := in.(*ssa.Select); ok && fShut == nil {
+				for _, stt := range sel.States {
+					if f := eng.LoadedField(stt.Chan); f != nil && stt.Dir == types.RecvOnly {
+						fShut = f
+					}
+				}
+			}
+		})
+	}
+	if fShut == nil {
+		fShut = p.Field("pkg/storage", "RetentionScanner", "retentionShutdown")
+	}
 	if start == nil || scan == nil || join == nil || fShut == nil {
 		return
 	}
